@@ -746,7 +746,8 @@ fn wanted(v: &Violation, prop: &str) -> bool {
 
 fn record(report: &mut Report, v: &Violation, text: &str, prop: &str, known: &[String], sigs: &mut HashSet<String>) {
     if v.sig == "watchdog" {
-        report.notes.push(format!("watchdog fired (inconclusive): {}", text.replace('\n', " | ")));
+        let t = text.replace('\n', " | ");
+        report.notes.push(format!("watchdog fired (inconclusive): {}", t.chars().take(400).collect::<String>()));
         report.stats.inc("watchdog_fired");
         return;
     }
@@ -817,6 +818,10 @@ fn mode_programs(args: &Args, mode: &str) {
     let mut sigs = HashSet::new();
     let strategies: &[&str] = if mode == "park" { &["park"] } else { &["uniform", "sticky", "pct", "starve"] };
     'outer: for pi in 0..nprog {
+        if report.stats.c.get("violating_runs").copied().unwrap_or(0) >= 50 {
+            report.notes.push(format!("stopped after {} programs: 50 runs violated the property", pi));
+            break;
+        }
         let mut rng = master.fork();
         let prog = if mode == "park" { gen_park_prog(&mut rng) } else if mode == "stress" && rng.chance(1, big_every) { gen_big_prog(&mut rng) } else { gen_prog(&mut rng) };
         let mut nontrivial = false;
